@@ -15,6 +15,8 @@ canon = getattr(mod, 'canon_impl', lambda l: ("panic" if l.startswith("panic:") 
 bad = sbad = na = 0
 for r, i0, m in zip(rq, impl, model):
     i = canon(i0)
+    if m.startswith('osdep'):
+        i = 'osdep'
     parts = m.split('\t')
     mo, sp = parts[0], (parts[1] if len(parts) > 1 else '-')
     if sp == '-':
